@@ -9,7 +9,8 @@ def run(tier, seed):
         "language detection and format dispatch additionally on inputs of 1024, 1025 and 4097 bytes (a body of line comments, so that all three scanners walk the whole input, ending in one arbitrary byte) under every file-name class",
         "Wa and Wz parsers (parser.ParseFile, all errors, comments) on token skeletons: every keyword and operator of the token table at top level and at statement position (quick), plus at expression position and between two operands (thorough), in both surface syntaxes, followed by one arbitrary byte: no panic, and termination within 5 million interpreter steps (a path that exceeds the budget is replayed natively under a 20 s limit and reported only if it is still running)",
         "WAT parser (parser.ParseModule) with two arbitrary bytes at each of 29 operand / declaration positions of a small module: no panic, termination within the step budget",
-        "outside: type checker, loader, native-assembly parser (pointer-rich, recursion), and inputs that are not of these shapes - stated as not covered, not replaced by another technique",
+        "native-assembly parser (parser.ParseFile) for LoongArch64, RISC-V 64 and x86-64/Unix (quick) plus RISC-V 32 and x86-64/Windows (thorough) at 14 directive, operand, label and instruction positions in the GAS and the Chinese syntax: the first byte enumerated from 15 token-class representatives, the second arbitrary among the non-letters; float literals are cut at big.Float.SetString (stub: not ok); no panic, termination within the step budget",
+        "outside: type checker, loader (pointer-rich, recursion), and inputs that are not of these shapes - stated as not covered, not replaced by another technique",
     ]
     lim = {"caselimit": "VfH_scan=%d" % ncase, "maxdecisions": 6000, "samples": 2}
     c.run_unit("internal/scanner", "scanner", opts=lim)
@@ -23,4 +24,8 @@ def run(tier, seed):
     # WAT parser on declaration/operand skeletons with two arbitrary bytes
     c.run_unit("internal/wat/parser", "parser", harnesses=["VfH_wat_pos"],
                opts={"maxdecisions": 6000, "samples": 1, "hangsteps": 5000000, "transparent": "strconv", "stubstr": "fmt.Sprintf"})
+    # native-assembly parser per CPU on directive / operand / instruction skeletons
+    c.run_unit("internal/native/parser", "parser", harnesses=["VfH_nasm_pos"] if tier == "quick" else ["VfH_nasm_pos", "VfH_nasm_pos_more"],
+               opts={"maxdecisions": 6000, "samples": 1, "hangsteps": 5000000, "transparent": "strconv", "stubstr": "fmt.Sprintf",
+                     "stubzero": "(*math/big.Float).SetString", "tasktimeout": "400s"})
     return c.finish()
